@@ -250,6 +250,13 @@ func run(t *testing.T, plan any, keep bool) *simcheck.Outcome {
 		}
 	})
 	var slow []slowRead
+	// byte slices returned by earlier GetBytes calls that a consumer still holds
+	type heldBytes struct {
+		data    []byte
+		content int
+		id      int
+	}
+	var held []heldBytes
 	lookups, hits, missesDuring := 0, 0, 0
 	type putRec struct{ id, content, start, end int }
 	type lookRec struct {
@@ -348,6 +355,9 @@ func run(t *testing.T, plan any, keep bool) *simcheck.Outcome {
 					case "getbytes":
 						data, e, err := c.GetBytes(id)
 						checkLookup("GetBytes", op.ID, data, e, err, mustHit, tag)
+						if cidx := which(data); err == nil && cidx >= 0 {
+							held = append(held, heldBytes{data, cidx, op.ID})
+						}
 						looks = append(looks, lookRec{op.ID, opStart, s.Steps(), which(data), tag, "GetBytes", fmt.Sprint(err)})
 					case "getfile":
 						file, e, err := c.GetFile(id)
@@ -372,6 +382,13 @@ func run(t *testing.T, plan any, keep bool) *simcheck.Outcome {
 					}
 					if out.Violation != nil {
 						return
+					}
+					// slow consumers: bytes returned by earlier GetBytes calls are still the caller's
+					for _, hb := range held {
+						if !bytes.Equal(hb.data, contents[hb.content]) {
+							out.Violate("bytes-changed-under-consumer", "%s: the slice returned by an earlier GetBytes(id%d) no longer holds the content it held (a later cache call wrote into it)", tag, hb.id)
+							return
+						}
 					}
 					// slow consumers: files named by earlier GetFile calls still hold the same bytes
 					for _, sr := range slow {
